@@ -157,7 +157,7 @@ func (p *Prog) narrowArith() []narrowSite {
 					continue
 				}
 				bo, ok := cv.X.(*ssa.BinOp)
-				if !ok || (bo.Op != token.ADD && bo.Op != token.SUB) {
+				if !ok || (bo.Op != token.ADD && bo.Op != token.SUB && bo.Op != token.MUL && bo.Op != token.SHL) {
 					continue
 				}
 				from, to := intWidth(basicKind(bo.Type())), intWidth(basicKind(cv.Type()))
